@@ -22,6 +22,7 @@ import (
 	"github.com/vipnode/vipnode/v2/pool"
 	"github.com/vipnode/vipnode/v2/pool/balance"
 	"github.com/vipnode/vipnode/v2/pool/payment"
+	"github.com/vipnode/vipnode/v2/pool/status"
 	"github.com/vipnode/vipnode/v2/pool/store"
 	"github.com/vipnode/vipnode/v2/request"
 )
@@ -148,6 +149,7 @@ type PoolWorld struct {
 
 	lastPeerURIs []string
 	agents       map[string]*stackAgent
+	dash         *status.PoolStatus
 }
 
 func netPipe() (net.Conn, net.Conn) { return net.Pipe() }
@@ -222,6 +224,11 @@ func (w *World) newPool(op J) error {
 	if err := pw.server.Register("pool_", pay); err != nil {
 		return err
 	}
+	// the status dashboard, as pool.go sets it up
+	pw.dash = &status.PoolStatus{Store: w.store, TimeStarted: time.Now(), Version: "vipverif", CacheDuration: time.Minute}
+	if err := pw.server.Register("pool_", pw.dash); err != nil {
+		return err
+	}
 	w.pool = pw
 	return nil
 }
@@ -231,6 +238,7 @@ func (pw *PoolWorld) rebind(s store.Store) {
 	pw.dep.inner = s
 	pw.pay.NonceStore = s
 	pw.pay.AccountStore = s
+	pw.dash.Store = s
 }
 
 func (pw *PoolWorld) openConn(name, mode, addr string) {
@@ -287,6 +295,8 @@ func (pw *PoolWorld) shutdown() {
 func isPoolOp(name string) bool {
 	switch name {
 	case "AgentNew", "AgentPeers", "AgentStart", "AgentUpdate", "AgentStop":
+		return true
+	case "Status":
 		return true
 	case "Burst", "Open", "Mode", "Close", "Connect", "Host", "Client", "Update", "Peer", "AddNode", "Withdraw", "Account", "Deposit", "SettleMode", "Ping":
 		return true
@@ -550,6 +560,29 @@ func (w *World) poolOp(op J) (J, error) {
 		return nil, fmt.Errorf("%s on a connection that is not open: %q", name, str(op, "conn"))
 	}
 	switch name {
+	case "Status":
+		var resp status.StatusResponse
+		if err := pw.call(c, &resp, "pool_status", nil); err != nil {
+			return pw.classify(err), nil
+		}
+		hosts := J{}
+		for _, h := range resp.ActiveHosts {
+			name := "raw:" + h.ShortID
+			for _, n := range w.nodeNames {
+				if n != "" && strings.HasPrefix(w.names.node(n), h.ShortID) {
+					name = n
+				}
+			}
+			hosts[name] = J{"seen": w.clock.secs(h.LastSeen), "kind": h.Kind, "block": int64(h.BlockNumber), "npeers": h.NumPeers}
+		}
+		val := J{"updated": w.clock.secs(resp.TimeUpdated), "hosts": hosts, "version": resp.Version}
+		if resp.Stats != nil {
+			val["stats"] = w.statsRec(resp.Stats)
+		} else {
+			val["stats"] = J{}
+			w.tr.flagBad("status without stats")
+		}
+		return okRes(val), nil
 	case "Ping":
 		var out string
 		if err := pw.call(c, &out, "vipnode_ping", nil); err != nil {
